@@ -12,10 +12,10 @@ def _unhex(w):
 
 def nontrivial(case, impl):
     f = case.split(" ")
-    s = _unhex(f[2] if f[0] == "u" else f[3])
+    s = _unhex(f[2] if f[0] == "u" else f[3]) + (_unhex(f[5]) if f[0] == "c" else b"")
     # non-trivial: the intended string contains a character that needs escaping
     if any(c in s for c in b'\\"\n\t\r\f'):
-        return (f[0], f[1] if f[0] in ("e", "b") else "", s)
+        return (f[0], f[1] if f[0] in ("e", "b", "c") else "", s)
     return None
 
 
@@ -36,7 +36,7 @@ RULE = ("all strings over the 9-character alphabet {a n t \\ \" space LF TAB x} 
         "(thorough), plus random strings up to 24 characters over a wider alphabet; each as a ParseZqlString case "
         "(random per-occurrence choice of raw or escaped control character) and as an end-to-end ast.Parse + "
         "EvalBool case in a random operand position (= != in not-in contains not-contains) against the intended "
-        "string and its plausible misreadings; for every string of length <= 2 and one longer string in eight additionally a bolt-store case: one entity per (non-empty, distinct) candidate value with id = name = value, `id <op> literal` and `name <op> literal` run through Store.QueryIds (the filter text is exactly that comparison, so any shortcut the store takes before parsing is on the path); non-trivial = intended string contains a character that needs "
+        "string and its plausible misreadings; for every string of length <= 2 and one longer string in eight additionally a bolt-store case: one entity per (non-empty, distinct) candidate value with id = name = value, `id <op> literal` and `name <op> literal` run through Store.QueryIds (the filter text is exactly that comparison, so any shortcut the store takes before parsing is on the path), and a c case: the literal and a neighbouring literal (blanks doubled / collapsed / added at an end, case changed) queried one after the other on the SAME store object, so anything the store remembers between queries is on the path; literals also contain the keywords and punctuation of the filter language (not, in, or, and, null, true, contains, brackets, commas); non-trivial = intended string contains a character that needs "
         "escaping; distinct = (kind, operator, string)")
 
 
